@@ -11,6 +11,12 @@ cfg:  ["des", sp, "A"|"M"]  ["cdes", sp, "A"|"M", test]  ["det", degree]  ["bc"]
       ["ad", name]  ["hampel", w, n_sigma, k]  ["pass", flag, inner_cfg]
       ["imputer", method] ["acf", nlags] ["pacf", nlags] ["cos"]     (observed + oracle only)
 
+"pre": {"cfg": cfg0, "ops": [...]} (optional) = OBJECT HISTORY: the object is constructed with cfg0 (same class, other
+parameters), the pre ops (fit / transform / update on OTHER data) run on it, then `set_params(<parameters of cfg>)`,
+then the case's ops (which start with fit / fit_transform).  The model is run as a FRESH object with cfg: a refit
+must forget the history.  If the first fit of the case raises on the real object the case is not comparable (the
+old fitted state legitimately persists) and is skipped.
+["bc"] may carry optimiser options: ["bc", [lo, hi] | null, "mle" | "pearsonr"].
 `inv` with "ref": k is applied to the series the real code returned for op k (fallback "z").
 If shift != 0 the same history is run a second time on a fresh object with every label + shift.
 
@@ -47,6 +53,8 @@ OBLIGATIONS = [
     "SkVerif.C13.shiftState_fresh",
     "SkVerif.C13.shift_equivariance_history",
     "SkVerif.C13.hampel_index_preserved",
+    "SkVerif.C13.refit_forgets_history",
+    "SkVerif.C13.refit_same_outcome",
 ]
 TRUSTED = [
     "hand-written model SkVerif/Model/SeriesTransform.lean of _deseasonalize.py, _detrend.py (+ the parts of PolynomialTrendForecaster/_SktimeForecaster it reaches), boxcox.py, adapt.py, compose.py, BaseTransformer.fit_transform, check_series, _hampel_filter",
@@ -61,7 +69,9 @@ ASSUMPTIONS = [
     "duplicate labels inside a batch passed to Detrender.fit/update are not modelled (pandas combine_first semantics); such cases are not sent to the model",
     "for ACF/PACF the output index is the lag, not time: the shift clause is read as 'output unchanged'",
 ]
-RULE = ("values are held as float64 / float32 / int64 / int32 series (integer dtypes with integer-valued data; training series and later "
+RULE = ("object history: a share of all cases (and a dedicated stream: every class x every neighbouring configuration) runs on an object that was "
+        "first constructed with other parameters, fitted / used on other data and then re-configured with set_params before the case's fit; "
+        "values are held as float64 / float32 / int64 / int32 series (integer dtypes with integer-valued data; training series and later "
         "stretches vary independently, incl. a real-valued stretch after an integer training series; count-data stream with values up to 1000); "
         "a case is a history of calls (fit / update / transform / inverse_transform / fit_transform, inverse applied to the series the real "
         "transform returned) on one transformer object, optionally replayed with every label shifted by a constant; streams: deseasonalizer small scope "
@@ -75,7 +85,8 @@ LEVEL_TEXT = ("proof for the model: alignment of the seasonal component for ever
               "from the history (every sequence of update / transform / inverse_transform calls and failing re-fits); round trips (deseasonalizer "
               "additive/multiplicative, detrender for any embedded regression, Box-Cox/log/adaptor for any library map with the stated inverse "
               "hypothesis); index preservation of the tagged transformers and of HampelFilter; fit_transform = fit;transform; shift equivariance of "
-              "every call and history of every modelled transformer incl. HampelFilter; tie to the code by differential correspondence over call histories")
+              "every call and history of every modelled transformer incl. HampelFilter; a successful re-fit forgets the object's history (same parameters "
+              "=> same results as a fresh object); tie to the code by differential correspondence over call histories")
 LEVEL_NOTE = ("All clauses are proved at full strength for the model of the code after the fixes 1ad9b8f (Deseasonalizer keeps its phase reference across "
               "update and failed re-fit) and bc08df8 (HampelFilter reads windows by position); the witnesses of the fixed defects stay in the corpus and "
               "re-introducing either defect makes the oracle fail. Observed only (oracle on real code, no model): Imputer, ACF/PACF, cos. Library code "
@@ -121,6 +132,36 @@ def _sk_has_inverse(name):
     return name != "binarizer"
 
 
+def _params(cfg):
+    """constructor / set_params keyword arguments that make an object of cfg's class equivalent to _build(cfg)"""
+    k = cfg[0]
+    if k in ("des", "cdes"):
+        d = {"sp": cfg[1], "model": "additive" if cfg[2] == "A" else "multiplicative"}
+        if k == "cdes":
+            test = cfg[3]
+            d["seasonality_test"] = None if test == "default" else (3 if test == "notcallable" else _tests()[test])
+        return d
+    if k == "det":
+        from sktime.forecasting.trend import PolynomialTrendForecaster
+        if cfg[1] == 1 and len(cfg) > 2 and cfg[2] == "default":
+            return {"forecaster": None}
+        return {"forecaster": PolynomialTrendForecaster(degree=cfg[1])}
+    if k == "bc":
+        b = cfg[1] if len(cfg) > 1 else None
+        return {"bounds": tuple(b) if b else None, "method": cfg[2] if len(cfg) > 2 else "mle"}
+    if k == "ad":
+        return {"transformer": _sk(cfg[1])}
+    if k == "hampel":
+        return {"window_length": cfg[1], "n_sigma": cfg[2], "k": cfg[3]}
+    if k == "pass":
+        return {"transformer": _build(cfg[2]), "passthrough": bool(cfg[1])}
+    if k == "imputer":
+        return {"method": cfg[1], "value": 1.5 if cfg[1] == "constant" else None}
+    if k in ("acf", "pacf"):
+        return {"n_lags": cfg[1]}
+    return {}
+
+
 def _build(cfg):
     k = cfg[0]
     if k == "des":
@@ -139,7 +180,7 @@ def _build(cfg):
         return Detrender(PolynomialTrendForecaster(degree=cfg[1]))
     if k == "bc":
         from sktime.transformations.series.boxcox import BoxCoxTransformer
-        return BoxCoxTransformer()
+        return BoxCoxTransformer(**_params(cfg))
     if k == "log":
         from sktime.transformations.series.boxcox import LogTransformer
         return LogTransformer()
@@ -243,9 +284,23 @@ def _apply(t, op, z):
     return _ser_token(r), (r if isinstance(r, pd.Series) else None)
 
 
-def _run_hist(case, shift, extras=None):
+def _run_hist(case, shift, extras=None, with_pre=True):
     cfg, itype = case["cfg"], case.get("itype", "range")
-    t = _build(cfg)
+    pre = case.get("pre") if with_pre else None
+    if pre:
+        # object history: another configuration fitted / used on other data, then set_params
+        t = _build(pre["cfg"])
+        for op in pre["ops"]:
+            try:
+                with warnings.catch_warnings():
+                    warnings.simplefilter("ignore")
+                    with np.errstate(all="ignore"):
+                        _apply(t, op, _mk_input(op["z"], itype, shift))
+            except Exception:
+                pass
+        t.set_params(**_params(cfg))
+    else:
+        t = _build(cfg)
     toks, sers = [], []
     for i, op in enumerate(case["ops"]):
         z = None
@@ -319,6 +374,10 @@ def run_real(case):
         extras["f32"] = True       # single-precision inputs: results carry ~1e-7 relative rounding error
     try:
         main = _run_hist(case, 0, extras)
+        if case.get("pre"):
+            if not main or main[0].startswith(("E:", "?")) or case["ops"][0]["op"] not in ("fit", "ft"):
+                return "SKIP-PRE @@ {}"
+            extras["fresh"] = " ".join(_run_hist(case, 0, None, with_pre=False))
         out = " ".join(main)
         if case.get("shift", 0):
             out += " ## " + " ".join(_run_hist(case, int(case["shift"])))
@@ -382,7 +441,8 @@ class _Shadow:
                 elif self.k == "bc":
                     from sktime.transformations.series.boxcox import _boxcox_normmax
                     try:
-                        self.lam = _boxcox_normmax(z, bounds=None, method="mle")
+                        pr = _params(self.cfg)
+                        self.lam = _boxcox_normmax(z, bounds=pr["bounds"], method=pr["method"])
                     except Exception as e:
                         fe = _err_token(e)
                 elif self.k == "ad":
@@ -592,6 +652,8 @@ def _tok_close(rt, mt, tol=1e-9):
 
 
 def compare(real_out, model_out):
+    if real_out.startswith("SKIP-PRE"):
+        return True
     rm, rs, ex = _split_out(real_out)
     mm, ms, _ = _split_out(model_out)
     tol = 2e-6 if '"f32": true' in ex else 1e-9       # single-precision inputs
@@ -619,7 +681,7 @@ def oracle(case, out):
     cfg = case["cfg"]
     site = _site(cfg)
     main, shifted, extras = _split_out(out)
-    if out.startswith("BUILD-"):
+    if out.startswith(("BUILD-", "SKIP-PRE")):
         return fails
     ops = case["ops"]
     if len(main) != len(ops):
@@ -757,6 +819,17 @@ def oracle(case, out):
                 add(site + ".fit_transform:differs-from-fit-then-transform",
                     "op %d: fit_transform -> %s ; fit().transform() -> %s" % (i, main[i][:200], extras["ftref"][str(i)][:200]))
 
+    # (6) object history: after set_params + fit the object behaves like a freshly constructed one
+    if case.get("pre") and "fresh" in extras:
+        fresh = extras["fresh"].split(" ")
+        if len(fresh) == len(main):
+            for i, (a, b) in enumerate(zip(main, fresh)):
+                if not _tok_close(a, b, 1e-12):
+                    add(site + ":refit-remembers-history",
+                        "op %d (%s): object first used as %r then set_params+fit -> %s ; fresh object -> %s"
+                        % (i, ops[i]["op"], case["pre"]["cfg"], a[:160], b[:160]))
+                    break
+
     # (5) shifting the integer index of all inputs shifts the output index, values unchanged
     if shifted is not None:
         c = int(case["shift"])
@@ -782,16 +855,29 @@ def oracle(case, out):
 
 # ----------------------------------------------------------------------------- evidence helpers
 def nontrivial(case, out):
+    if out.startswith(("SKIP-PRE", "BUILD-")):
+        return False
     main, _, _ = _split_out(out)
     return any(_parse_tok(t)[0] == "ser" and len(_parse_tok(t)[1]) > 0 for t in main)
+
+
+def _cfg_tag(cfg):
+    if cfg[0] == "pass":
+        return "pass(%s,%s)" % (cfg[2][0], "T" if cfg[1] else "F")
+    return ":".join(str(x) for x in cfg[:3])
 
 
 def features(case, out):
     cfg = case["cfg"]
     f = ["cfg=" + (cfg[0] if cfg[0] != "pass" else "pass(%s,%s)" % (cfg[2][0], "T" if cfg[1] else "F"))]
     main, shifted, _ = _split_out(out)
+    if out.startswith(("SKIP-PRE", "BUILD-")):
+        main = []
     f.append("ops=%d" % min(len(case["ops"]), 8))
     f.append("shift=" + ("0" if not case.get("shift") else "nonzero"))
+    if case.get("pre"):
+        f.append("object-history" + (":skipped" if out.startswith("SKIP-PRE") else ""))
+        f.append("history:" + (cfg[0] if cfg[0] != "pass" else "pass(%s->%s)" % ("T" if case["pre"]["cfg"][1] else "F", "T" if cfg[1] else "F")))
     if any(o["op"] == "upd" for o in case["ops"]):
         f.append("with-update")
     for t in main:
@@ -966,7 +1052,7 @@ def _gen_det(tier, rng, cases):
 
 def _gen_col(tier, rng, cases):
     reps = 25 if tier == "quick" else 300
-    for cfg in (["bc"], ["log"], ["ad", "minmax"], ["ad", "standard"], ["ad", "robust"], ["ad", "binarizer"], ["ad", "log1p"]):
+    for cfg in (["bc"], ["bc", [0, 1], "mle"], ["bc", None, "pearsonr"], ["bc", [-1, 2], "pearsonr"], ["log"], ["ad", "minmax"], ["ad", "standard"], ["ad", "robust"], ["ad", "binarizer"], ["ad", "log1p"]):
         for r in range(reps):
             t0 = rng.choice([-5, 0, 4, 20])
             n = rng.randrange(3, 12)
@@ -1010,6 +1096,105 @@ def _gen_counts(tier, rng, cases):
                     if o.get("ref") is not None:
                         o["ref"] -= 1
             cases.append({"cfg": cfg, "itype": rng.choice(["range", "int64"]), "shift": rng.choice([0, 0, 5]), "ops": ops})
+
+
+# ---- object history: the same object used before with other parameters / other data
+_INNERS = [["des", 2, "A"], ["des", 3, "M"], ["cdes", 2, "A", "true"], ["det", 1], ["det", 0], ["bc"], ["log"],
+           ["ad", "minmax"], ["ad", "standard"], ["ad", "binarizer"]]
+
+
+def _neighbours(cfg):
+    """configurations of the same class that differ in one (or a few) parameters"""
+    k = cfg[0]
+    if k in ("des", "cdes"):
+        out = [[k, sp, cfg[2]] + cfg[3:] for sp in (1, 2, 3, 4, 5, 7) if sp != cfg[1]]
+        out.append([k, cfg[1], "M" if cfg[2] == "A" else "A"] + cfg[3:])
+        out.append([k, cfg[1] + 1, "M" if cfg[2] == "A" else "A"] + cfg[3:])
+        if k == "cdes":
+            out += [[k, cfg[1], cfg[2], t] for t in ("true", "false", "default") if t != cfg[3]]
+        return out
+    if k == "det":
+        return [c for c in (["det", 0], ["det", 1], ["det", 1, "default"]) if c != cfg]
+    if k == "bc":
+        return [c for c in (["bc"], ["bc", [0, 1], "mle"], ["bc", None, "pearsonr"], ["bc", [-2, 0.5], "mle"]) if c != cfg]
+    if k == "ad":
+        return [["ad", n] for n in ("minmax", "standard", "robust", "binarizer", "log1p") if n != cfg[1]]
+    if k == "hampel":
+        return [["hampel", w, ns, kk] for (w, ns, kk) in ((2, 3, HAMPEL_K), (5, 1, 1.0), (3, 2, 0.5)) if [w, ns, kk] != cfg[1:]]
+    if k == "pass":
+        out = [["pass", not cfg[1], cfg[2]]]
+        out += [["pass", fl, inner] for inner in _INNERS if inner != cfg[2] for fl in (True, False)]
+        return out
+    if k == "imputer":
+        return [["imputer", m] for m in ("drift", "linear", "constant", "mean", "ffill") if m != cfg[1]]
+    if k in ("acf", "pacf"):
+        return [[k, n] for n in (1, 2, 3, 4) if n != cfg[1]]
+    return [list(cfg)]        # log, cos: no parameters; the history is other data only
+
+
+def _train_len(cfg):
+    c = _eff_cfg(cfg) if cfg[0] != "pass" else cfg[2]
+    return 2 * c[1] if c[0] in ("des", "cdes") else 3
+
+
+def _pre_history(rng, cfg0, t0):
+    """calls on the object before it is re-configured: fit on OTHER data, then some use of it"""
+    c = cfg0[2] if cfg0[0] == "pass" else cfg0
+    sp = c[1] if c[0] in ("des", "cdes") else 2
+    n = _train_len(cfg0) + rng.randrange(0, 6)
+    start = t0 + rng.choice([-7, -2, 0, 3, 11])
+    z = _seasonal_series(rng, start, max(n, 4), sp)
+    ops = [{"op": "fit", "z": z}]
+    for _ in range(rng.randrange(0, 3)):
+        k = rng.choice(["tr", "tr", "inv", "upd"])
+        zz = _series(rng, start + rng.randrange(-3, n + 3), rng.randrange(1, 6))
+        ops.append({"op": k, "z": zz, "up": None})
+    return {"cfg": cfg0, "ops": ops}
+
+
+def _attach_history(rng, case, cfg0=None):
+    ops = case["ops"]
+    if case.get("pre") or not ops or ops[0]["op"] not in ("fit", "ft") or not _valid_series(ops[0]["z"]):
+        return False
+    if case["cfg"][0] == "pass" and case["cfg"][2][0] == "pass":
+        return False
+    cfg0 = cfg0 or rng.choice(_neighbours(case["cfg"]))
+    case["pre"] = _pre_history(rng, cfg0, ops[0]["z"]["l"][0])
+    return True
+
+
+def _gen_history(tier, rng, cases):
+    """every class x every neighbouring configuration it may have had before set_params + fit"""
+    bases = [["des", 4, "A"], ["des", 2, "M"], ["cdes", 3, "A", "true"], ["cdes", 2, "M", "false"], ["det", 1], ["det", 0],
+             ["bc"], ["bc", [0, 1], "mle"], ["log"], ["ad", "minmax"], ["ad", "standard"], ["ad", "binarizer"],
+             ["hampel", 3, 3, HAMPEL_K], ["imputer", "linear"], ["imputer", "constant"], ["acf", 2], ["cos"]]
+    bases += [["pass", fl, inner] for inner in _INNERS for fl in (True, False)]
+    reps = 1 if tier == "quick" else 5
+    for cfg in bases:
+        nb = _neighbours(cfg)
+        if tier == "quick" and len(nb) > 4:
+            nb = [nb[0]] + rng.sample(nb[1:], 3)
+        for cfg0 in nb:
+            for _ in range(reps):
+                c = cfg[2] if cfg[0] == "pass" else cfg
+                sp = c[1] if c[0] in ("des", "cdes") else 2
+                t0 = rng.choice([-5, 0, 6])
+                n = max(_train_len(cfg), 4) + rng.randrange(0, 7)
+                nanp = 0.2 if cfg[0] == "imputer" else 0.0
+                z1 = _seasonal_series(rng, t0, n, sp)
+                if nanp:
+                    z1["v"] = [None if (rng.random() < nanp and 0 < i < n - 1) else v for i, v in enumerate(z1["v"])]
+                z2 = _series(rng, t0 + rng.randrange(-3, n + 3), rng.randrange(1, 6))
+                ops = [{"op": "fit", "z": z1}, {"op": "tr", "z": z1}, {"op": "inv", "z": z1, "ref": 1},
+                       {"op": "tr", "z": z2}, {"op": "inv", "z": z2, "ref": 3}]
+                if rng.random() < 0.3:
+                    ops = [{"op": "ft", "z": z1}, {"op": "inv", "z": z1, "ref": 0}, {"op": "tr", "z": z2}, {"op": "inv", "z": z2, "ref": 2}]
+                if cfg[0] in ("des", "cdes", "det") and rng.random() < 0.4:
+                    ops.append({"op": "upd", "z": _series(rng, t0 + n, 2), "up": None})
+                    ops.append({"op": "tr", "z": z2})
+                case = {"cfg": cfg, "itype": rng.choice(["range", "int64"]), "shift": rng.choice([0, 0, 4, -6]), "ops": ops}
+                _attach_history(rng, case, cfg0)
+                cases.append(case)
 
 
 def _gen_pass(tier, rng, cases):
@@ -1152,6 +1337,11 @@ def gen_cases(tier, rng):
     _gen_positional(tier, rng, cases)
     _gen_random(tier, rng, cases)
     _gen_random(tier, rng, cases, malformed=True)
+    _gen_history(tier, rng, cases)
+    # object history for a share of all other cases (the first call must be a fit on a valid series)
+    for c in cases:
+        if rng.random() < 0.25:
+            _attach_history(rng, c)
     # dtype of the values: training series and later stretches vary independently
     # (float64 / float32 / int64 / int32; integer dtypes carry integer-valued data)
     n_counts = sum(1 for c in cases if any(isinstance(o["z"], dict) and "dt" in o["z"] for o in c["ops"]))
